@@ -57,6 +57,10 @@ CLAIMS = {
          'DNS name decoder FetchDomain under an unbounded CBMC contract: every read inside the datagram (against the Deserializer contracts), label buffer written within its length, label loop terminates (decreases clause), recursion on compression pointers bounded by a strictly decreasing non-negative measure checked at the recursive call. The deadline wheel (TimeoutMonitor) and Deserializer units it rests on are re-checked in the same run.',
          'Trusted: printer, CBMC, ostringstream as write-only sink (the produced name text is not decided), Deserializer/TimeoutMonitor contracts re-proved here. DnsRequest::onUdpRecv / request / cancel bookkeeping (std::map, callbacks) is not under contract: exactly-once completion is only covered through the TimeoutMonitor contracts.',
          'CBMC function/loop contracts with a recursion measure on mechanically extracted C', '6 C15'),
+ 'C16': ('other',
+         'StateMachine::Impl under CBMC contracts, one level at a time with child-view contracts for the nested machine: rejected calls change nothing; events go to the active sub-machine until it terminated; handler pick, else first route in registration order whose event matches and whose guard holds (guards evaluated only for matching routes, in order, once); exit, route action, enter, notification, sub start/run in that order exactly once each; re-entrancy guard restored on every path; start/stop balanced including the sub-machine.',
+         'Trusted: printer, CBMC, opaque std::map stubs, callback stubs, one assume instantiating a quantified precondition. run is checked for states with at most 8 routes. The whole-hierarchy trace equality is the induction over these contracts (paper).',
+         'CBMC function/loop contracts with child-view contracts and call-order ghosts on mechanically extracted C', '6 C16'),
  'C19': ('proof',
          'Per-function CBMC contracts and loop-free/complete-unwinding lemmas on the C re-printed from the real codec sources: size functions, frames (no write beyond capacity, no read outside input), exact inverse on every value, CRC/checksum/MD5/AES equal to reference definitions written from the standards.',
          'Trusted: clang-AST->C printer, CBMC+SAT, allocator never fails, libc models; std::string/vector overloads only through their shared loops; see evidence.assumptions.',
